@@ -9,7 +9,11 @@ import (
 	"strings"
 
 	"verifharness/internal/common"
+	"verifharness/internal/commitstream"
+	"verifharness/internal/evmsyncstream"
 	"verifharness/internal/ledgerstream"
+	"verifharness/internal/rlpstream"
+	"verifharness/internal/signerstream"
 )
 
 func readLines(path string) []string {
@@ -60,6 +64,14 @@ func main() {
 	switch stream {
 	case "ledger":
 		res = ledgerstream.Run(*seed, *tier, wd, *driver, rp)
+	case "signer":
+		res = signerstream.Run(*seed, *tier, wd, *driver, rp)
+	case "rlp":
+		res = rlpstream.Run(*seed, *tier, wd, *driver, rp)
+	case "evmsync":
+		res = evmsyncstream.Run(*seed, *tier, wd, *driver, rp)
+	case "commit":
+		res = commitstream.Run(*seed, *tier, wd, *driver, rp)
 	default:
 		fmt.Fprintln(os.Stderr, "unknown stream", stream)
 		os.Exit(2)
